@@ -530,6 +530,10 @@ def make_builtins(extra=None):
         "issubclass": issubclass_, "type": type_, "hash": hash_, "next": next_, "iter": iter_, "abs": abs_,
         "range": range_, "list": list_, "tuple": tuple_, "set": set_, "dict": dict_, "int": int_,
     })
+    # helpers referenced by the comprehension desugaring (pyvc.desugar); private names, so a module that shadows
+    # `map`/`list` keeps its own meaning
+    d.update({"__pyvc_map__": map_, "__pyvc_filter__": filter_, "__pyvc_list__": list_, "__pyvc_set__": set_,
+              "__pyvc_dict__": dict_, "__pyvc_flat__": lambda its: _chain().from_iterable(its)})
     if extra:
         d.update(extra)
     return d
